@@ -2419,8 +2419,16 @@ func (s *scanner) processScannedFiles(entryPointMeta []graph.EntryPoint) []scann
 		}
 	}
 
-	// Automatically minify the metafile JSON if the bundle is really big
-	if len(s.results) > 256 {
+	// Automatically minify the metafile JSON if the bundle is really big. Count
+	// the files in this build instead of using "len(s.results)", which also
+	// covers every file that previous incremental builds have ever seen.
+	fileCount := 0
+	for _, result := range s.results {
+		if result.ok {
+			fileCount++
+		}
+	}
+	if fileCount > 256 {
 		s.options.MetafileFormat = config.MinifiedMetafile
 	}
 
